@@ -497,7 +497,7 @@ pub fn gen_case(rng: &mut Rng, t: &Tree, full: bool, stats: &mut BTreeMap<String
         keys.push(String::new());
         keys.dedup();
     }
-    if rng.chance(1, 5) {
+    if rng.chance(1, 4) {
         let mut m: Vec<(String, String)> = vec![];
         for _ in 0..rng.range(0, 3) {
             let k = if rng.chance(3, 4) {
@@ -506,7 +506,29 @@ pub fn gen_case(rng: &mut Rng, t: &Tree, full: bool, stats: &mut BTreeMap<String
                 gen_key(rng, t, None, &mut BTreeMap::new()).replace('\\', "/")
             };
             let k = if rng.chance(1, 2) { lower_first(&k) } else { upper_first(&k) };
-            let v = gen_key(rng, t, cfg.pd.as_deref(), &mut BTreeMap::new()).replace('\\', "/");
+            let mut v = gen_key(rng, t, cfg.pd.as_deref(), &mut BTreeMap::new()).replace('\\', "/");
+            // Windows-style mapping values: all, some or one separator as a backslash, hidden
+            // "." and ".." segments, mixed separators
+            match rng.below(8) {
+                0 => v = v.replace('/', "\\"),
+                1 => {
+                    let seps = sep_positions(&v);
+                    if !seps.is_empty() {
+                        let i = *rng.pick(&seps);
+                        v.replace_range(i..i + 1, "\\");
+                    }
+                }
+                2 => v = rng.pick(&["x\\..\\y.c", "x\\..\\..\\y.c", "a\\.\\b.c", "foo\\..\\foo/bar.c", "foo/x\\..\\..\\..\\up.c",
+                    "..\\a/../b.c", "a\\\\b.c", "foo\\bar.c\\", "\\abs\\a.c", "libs/..\\foo\\.\\bar.c"]).to_string(),
+                3 => {
+                    let name = rng.pick(DIRS);
+                    v = format!("{}\\..\\{}", name, v.trim_start_matches('/'));
+                }
+                _ => {}
+            }
+            if v.contains('\\') {
+                *stats.entry("mapping.value_with_backslash".to_string()).or_insert(0) += 1;
+            }
             if !m.iter().any(|(k2, _)| *k2 == k) {
                 m.push((k, v));
             }
@@ -678,6 +700,24 @@ pub fn spec_normalize(p: &str) -> Option<String> {
     Some(format!("{}{}", if abs { "/" } else { "" }, st.join("/")))
 }
 
+/// the path `rewrite_paths` works on after the separator replacement of the key and the path
+/// mapping (keys `to_lowercase_first` / `to_uppercase_first`, ASCII in the generated domain)
+pub fn spec_mapped(cfg: &Cfg, key: &str) -> String {
+    let path = key.replace('\\', "/");
+    if let Some(m) = &cfg.mapping {
+        let get = |x: &str| m.iter().find(|(k2, _)| k2 == x).map(|(_, v)| v.clone());
+        if let Some(v) = get(&lower_first(&path)).or_else(|| get(&upper_first(&path))) {
+            return v;
+        }
+    }
+    path
+}
+
+/// normalise, turn backslashes into '/', normalise again (fix 568afd2); None = dropped
+pub fn spec_final(p: &str) -> Option<String> {
+    spec_normalize(&spec_normalize(p)?.replace('\\', "/"))
+}
+
 /// escapes iff at some prefix of the segment list there are more ".." than names
 pub fn spec_escapes(p: &str) -> bool {
     let mut depth: i64 = 0;
@@ -729,7 +769,12 @@ fn multiset(r: &Recs) -> Vec<String> {
 }
 
 /// The C11 property, evaluated on the implementation alone for one case. Returns the first
-/// failing clause, and whether the failure is of the kind named "C11-mapping-backslash".
+/// failing clause and the name of the finding it belongs to (none is named here any more: the
+/// former C11-mapping-backslash is fixed by 568afd2 and its witnesses are corpus cases).
+/// finding: a path component that contains a backslash (a Windows-style mapping value on Unix)
+/// keeps it in the absolute path and loses it in the relative one
+pub const BACKSLASH_NAME: &str = "C11-backslash-name-abs-rel-differ";
+
 pub fn c11_oracle(case: &Case) -> Option<(String, Option<&'static str>)> {
     let all = c11_oracle_all(case);
     all.iter()
@@ -754,22 +799,36 @@ fn c11_oracle_inner(case: &Case, fails: &mut Vec<(String, Option<&'static str>)>
         Ok(r) => r,
         Err(p) => { fails.push((format!("the unfiltered run panics but the filtered one does not: {}", p), None)); return; }
     };
-    let mapped_backslash = cfg
-        .mapping
-        .as_ref()
-        .map(|m| m.iter().any(|(_, v)| v.contains('\\')))
-        .unwrap_or(false);
-    // normal form
+    // normal form: '/'-separated, no empty / "." / ".." piece and no backslash, whatever the
+    // spelling of the key and of the mapping values
     for (_, rel, _) in &neutral {
         if !normal_form(rel) {
-            let finding = if mapped_backslash { Some("C11-mapping-backslash") } else { None };
-            fails.push((format!("reported path {:?} is not in normal form", rel), finding));
+            fails.push((format!("reported path {:?} is not in normal form", rel), None));
+        }
+    }
+    // backslashed inputs: without source and prefix dir the reported path is the key (or its
+    // mapping value) normalised, its backslashes turned into '/', and normalised again; a path
+    // that escapes through ".." at either stage is dropped
+    if cfg.sd.is_none() && cfg.pd.is_none() {
+        for (i, (k, _)) in case.entries.iter().enumerate() {
+            if k.is_empty() {
+                continue;
+            }
+            let want = spec_final(&spec_mapped(cfg, k));
+            let _ = i;
+            let got = neutral
+                .iter()
+                .find(|r| marker(&r.2) == marker(&case.entries[i].1))
+                .map(|r| r.1.clone());
+            if want != got {
+                fails.push((format!("key {:?}: reported as {:?}, the two-stage normal form is {:?}", k, got, want), None));
+            }
         }
     }
     // data pass-through: every record carries exactly the data of the entry with its marker
+    // (entries are identified by their marker line, not by position: shrinking removes entries)
     for (_, _, c) in &neutral {
-        let i = marker(c).checked_sub(MARK).map(|i| i as usize).unwrap_or(usize::MAX);
-        if i >= case.entries.len() || case.entries[i].1 != *c {
+        if !case.entries.iter().any(|e| marker(&e.1) == marker(c) && e.1 == *c) {
             fails.push(("coverage data of a retained file was changed".into(), None));
         }
     }
@@ -799,7 +858,7 @@ fn c11_oracle_inner(case: &Case, fails: &mut Vec<(String, Option<&'static str>)>
     if multiset(&want) != multiset(&reported) {
         fails.push((
             "selection: reported set differs from {unfiltered records : no ignore glob, some keep glob, exists, filter}".into(),
-            if mapped_backslash { Some("C11-mapping-backslash") } else { None },
+            None,
         ));
     }
     // partitions of the unfiltered report
@@ -852,7 +911,10 @@ fn c11_oracle_inner(case: &Case, fails: &mut Vec<(String, Option<&'static str>)>
                     }
                 }
                 if abs.starts_with(&format!("{}/", sd)) && spec_normalize(sd).as_deref() == Some(sd.as_str()) && *abs != format!("{}/{}", sd, rel) {
-                    fails.push((format!("abs {:?} is under the source dir but is not source_dir/rel ({:?})", abs, rel), None));
+                    // named matcher: the absolute path has a component that contains a backslash
+                    // (it keeps it, the relative path turns it into a separator)
+                    let finding = if abs.contains('\\') { Some(BACKSLASH_NAME) } else { None };
+                    fails.push((format!("abs {:?} is under the source dir but is not source_dir/rel ({:?})", abs, rel), finding));
                 }
             }
         }
@@ -862,7 +924,7 @@ fn c11_oracle_inner(case: &Case, fails: &mut Vec<(String, Option<&'static str>)>
         if let Some(pd) = &cfg.pd {
             let pn = spec_normalize(pd);
             for (_, rel, c) in &neutral {
-                let Some(entry) = marker(c).checked_sub(MARK).and_then(|i| case.entries.get(i as usize)) else {
+                let Some(entry) = case.entries.iter().find(|e| marker(&e.1) == marker(c)) else {
                     continue; // already reported: the record carries no input's data
                 };
                 let key = entry.0.replace('\\', "/");
